@@ -636,9 +636,19 @@ impl<'a> UserModel<'a> {
             return Err("Cannot delete only sheet".to_string());
         }
 
+        let sheet_id = worksheet.sheet_id;
+        let old_names = self
+            .model
+            .workbook
+            .defined_names
+            .iter()
+            .filter(|dn| dn.sheet_id == Some(sheet_id))
+            .cloned()
+            .collect();
         self.push_diff_list(vec![Diff::DeleteSheet {
             sheet,
             old_data: Box::new(worksheet.clone()),
+            old_names,
         }]);
 
         // The selection follows its sheet: sheets after the deleted one move down by
